@@ -53,6 +53,11 @@ Grid == {[Base EXCEPT !.nx = s \div 100, !.ny = s % 100, !.ax = a \div 10, !.ay 
 WithLevels(S) == UNION {{[b EXCEPT !.lv = l] : l \in LevelChoices(b.nz)} : b \in S}
 WithTower(S)  == UNION {{[b EXCEPT !.xm = i * b.ax, !.ym = j * b.ay] : i \in 0..(b.nx - 1), j \in 0..(b.ny - 1)} : b \in S}
 WithFp(S)     == UNION {{[b EXCEPT !.fp = f] : f \in BOOLEAN} : b \in S}
+\* footprint mode with a halo: the measurement point may also lie OUTSIDE the source domain, inside the padded one
+\* (a tower west or south of the reference corner): one cell beyond every edge
+WithTowerAround(S) == UNION {{[b EXCEPT !.xm = i * b.ax, !.ym = j * b.ay] :
+                                i \in (IF b.fp /\ b.halo # 0 THEN -1 ELSE 0)..(IF b.fp /\ b.halo # 0 THEN b.nx ELSE b.nx - 1),
+                                j \in (IF b.fp /\ b.halo # 0 THEN -1 ELSE 0)..(IF b.fp /\ b.halo # 0 THEN b.ny ELSE b.ny - 1)} : b \in S}
 
 Usable(b) == LET g == Geometry(b) IN Representable(b, g) /\ g.nxe <= 10 /\ g.nye <= 10
 
@@ -60,7 +65,9 @@ InitSet ==
     CASE Family = "recip"     -> {b \in WithTower(WithLevels({[x EXCEPT !.fp = TRUE] : x \in Grid})) : Usable(b)}
       [] Family = "conserve"  -> {b \in WithFp(WithLevels({[x EXCEPT !.bg = 77] : x \in Grid})) : Usable(b)}
       [] Family = "linear"    -> {b \in WithFp(WithLevels(Grid)) : Usable(b)}
-      [] Family = "translate" -> {b \in WithTower(WithFp(WithLevels(Grid))) : Usable(b)}
+      [] Family = "translate" -> {b \in WithTowerAround(WithFp(WithLevels(Grid))) :
+                                       Usable(b) /\ ((Geometry(b).px >= 1 /\ Geometry(b).py >= 1)
+                                                     \/ (b.xm >= 0 /\ b.ym >= 0 /\ b.xm < b.nx * b.ax /\ b.ym < b.ny * b.ay))}
       [] Family = "symmetry"  -> {b \in WithFp(WithLevels(Grid)) : Usable(b)}
       [] Family = "boundary"  -> {b \in WithTower(WithFp(WithLevels(Grid))) : Usable(b) /\ (b.fp \/ (b.xm = 0 /\ b.ym = 0))}
       [] Family = "mirror"    -> {b \in WithTower(WithFp(WithLevels(Grid))) : Usable(b) /\ (b.fp \/ (b.xm = 0 /\ b.ym = 0))}
@@ -316,7 +323,7 @@ PointReflectIn ==
         LET g  == G0
             H  == Transfer(vc, g)
             rd == RunH([vc EXCEPT !.fp = FALSE, !.xm = 0, !.ym = 0, !.src = <<"unit", ShiftJ, ShiftI>>, !.bg = 0], g, H)
-        IN  rd.err = "none" =>
+        IN  (rd.err = "none" /\ InWin(ShiftJ, ShiftI)) =>
             \A k \in 1..NL, j \in 0..(vc.ny - 1), i \in 0..(vc.nx - 1) :
               InWin((2 * ShiftJ) - j, (2 * ShiftI) - i) =>
                   /\ vres.flx[k][j][i] = rd.flx[k][(2 * ShiftJ) - j][(2 * ShiftI) - i]
